@@ -297,6 +297,7 @@ func (r *Runner) Run() {
 	}
 	r.Setup()
 	r.W.Stop = r.stopEarly
+	r.W.Round = r.sampleCommit
 	for _, a := range r.P.Actions {
 		if a.Dt > 0 {
 			r.W.Advance(time.Duration(a.Dt)*time.Millisecond, r.sample)
